@@ -3,6 +3,7 @@ from __future__ import annotations
 
 import itertools
 from pathlib import Path
+from urllib.parse import unquote
 from typing import IO, Iterable, Type, TYPE_CHECKING
 
 from pydoctor import model
@@ -117,7 +118,8 @@ class TemplateWriter(IWriter):
             if self.dry_run:
                 self.total_pages += 1
             else:
-                with self.build_directory.joinpath(ob.url).open('wb') as fobj:
+                # The url is percent-encoded: the file must carry the name it decodes to.
+                with self.build_directory.joinpath(unquote(ob.url)).open('wb') as fobj:
                     self._writeDocsForOne(ob, fobj)
         for o in ob.contents.values():
             self._writeDocsFor(o)
